@@ -163,7 +163,9 @@ def expand(ctx: Ctx, pid: str, fam: list[dict], rng: random.Random) -> tuple[lis
                  + pick(lambda d: d["unique"], nb // 4)
                  + pick(lambda d: d["max_failures"] == 0 and all(b in ("ok", "badif") for b in d["ops"]), nb // 4)
                  + pick(lambda d: "stateful" in d["phases"] and d["links"] != "none", nb // 6 + 1))
-        recipe = {"stop": 6 if quick else 25, "ctrlc": 0, "faults": 0}
+        # stateful-only bases are cheap and the "scenario announced after the stop" class needs the stop to land right before a
+        # scenario without steps: every stop position is tried for them
+        recipe = {"stop": 6 if quick else 25, "ctrlc": 0, "faults": 0, "stateful_stop_all": True}
         # rate limit: a few runs long enough to overflow one window, several worker counts
         rate_bases = [{"ops": ["ok", "ok", "ok"], "links": "none", "phases": ["coverage", "fuzzing"], "workers": w, "max_failures": 0,
                        "cof": False, "unique": False, "rate": r} for w, r in ([(1, 15), (3, 15)] if quick else [(1, 10), (2, 20), (3, 15), (4, 30), (4, 10)])]
@@ -207,7 +209,9 @@ def variants(base: dict, ref: dict, recipe: dict, rng: random.Random) -> list[di
         return [dict(base, ctrlc_at=k) for k in (2, 4, 6, 9, 13, 18)]
     if base.get("mf_fault"):
         return [dict(base, fault={"site": "checks.run", "occ": base["mf_fault"], "exc": "Exception"}, max_examples=6)]
-    if recipe["stop"] != "all":
+    if recipe.get("stateful_stop_all") and base["phases"] == ["stateful"]:
+        stops = stops[:60]
+    elif recipe["stop"] != "all":
         stops = common.sample(rng, stops, recipe["stop"])
     for k in stops:
         out.append(dict(base, stop_at=k))
